@@ -1,5 +1,268 @@
-//! byte-exact tie of the concrete ProDOS model (stub until the model is built): called from fs.rs::post_step
-//! after every executed operation (`w.last_op` describes it) and once after format (`w.last_op == None`)
-use super::fs::{Drv, Verdicts, World};
+//! byte-exact tie of the concrete ProDOS model (Lean `Model/Fs/Prodos.lean`, driver family `fspd`): called from
+//! fs.rs::post_step after every executed operation on ProDOS / flat PO (`w.last_op` describes it; None for a
+//! query or a skipped step) and — if fs.rs calls it — once right after format (`after_format`).
+//!
+//! After the mirror of the saved image has been updated (`fs set`), the operation is sent with the arguments the
+//! real call received and the result class the real code reported.  The model applies it to the image as it was
+//! before the step and answers `ok` iff its result class and its written-back image (unit for unit) agree.
+//! Then: `stat().free_blocks`, the catalog rows of the root and of every directory, and after a successful put
+//! the fetched file are compared with the model's `statFree`, `catalog`, `get`.
+//! Disagreements are oracle failures `concrete-model:{result,image,free,cat,get,…}` under C01, C02, C03, C05.
+//! `A2V_NO_FSPRODOS=1` switches the tie off.
+use super::fs::{Drv, Focus, OpRecord, Verdicts, World};
+use crate::util::*;
+use a2kit::fs::FileImage;
+use std::collections::BTreeMap;
 
-pub fn after_step(_drv: &mut Drv, _w: &mut World, _vd: &mut Verdicts, _desc: &str) {}
+/// the verdicts are reported under C01, C02, C03, C05 only: under the other foci of the engine nothing is sent
+fn enabled(w: &World, vd: &Verdicts) -> bool {
+    matches!(vd.focus, Focus::C01 | Focus::C02 | Focus::C03 | Focus::C05) && std::env::var("A2V_NO_FSPRODOS").is_err() && w.cfg.flat && w.cfg.container == "po"
+}
+
+fn hxs(s: &str) -> String { hx(s.as_bytes()) }
+
+/// `pack_time(None)` of a2kit's ProDOS module, recomputed from the (pinned) clock
+fn pd_time() -> Vec<u8> {
+    use chrono::{Datelike, Timelike};
+    let now = chrono::Local::now().naive_local();
+    let (_ce, year) = now.year_ce();
+    let date = (now.day() + (now.month() << 5) + ((year % 100) << 9)) as u16;
+    let time = (now.minute() + (now.hour() << 8)) as u16;
+    let (d, t) = (date.to_le_bytes(), time.to_le_bytes());
+    vec![d[0], d[1], t[0], t[1]]
+}
+
+/// result class of a real ProDOS operation in the vocabulary of the model (`Err.token`)
+fn err_tok(e: &str) -> String {
+    match e {
+        "RANGE ERROR" => "range", "WRITE PROTECTED" => "writeprotected", "END OF DATA" => "endofdata", "PATH NOT FOUND" => "pathnotfound",
+        "I/O ERROR" => "ioerror", "DISK FULL" => "diskfull", "FILE TYPE MISMATCH" => "filetypemismatch", "SYNTAX ERROR" => "syntax",
+        "DIRECTORY FULL" => "directoryfull", "DUPLICATE FILENAME" => "duplicate", "unable to access sector" => "imgerr", "PANIC" => "panic",
+        x if x.contains("invalid digit") || x.contains("cannot parse integer") || x.contains("too large to fit") || x.contains("too small to fit") => "parseint",
+        _ => return format!("other({})", e.replace(' ', "_")),
+    }.to_string()
+}
+fn res_tok(r: &Result<(), String>) -> String { match r { Ok(()) => "ok".to_string(), Err(e) => format!("err:{}", err_tok(e)) } }
+
+/// Adler-32 over (index low, index high, data…) of every chunk in index order
+fn adler(chunks: &BTreeMap<usize, Vec<u8>>) -> u64 {
+    let (mut a, mut b) = (1u64, 0u64);
+    for (i, c) in chunks {
+        for x in [(*i % 256) as u8, (*i / 256 % 256) as u8].iter().chain(c.iter()) { a = (a + *x as u64) % 65521; b = (b + a) % 65521; }
+    }
+    b * 65536 + a
+}
+fn get_answer(r: &Result<Result<FileImage, String>, String>) -> String {
+    match r {
+        Ok(Ok(g)) => {
+            let cs: BTreeMap<usize, Vec<u8>> = g.chunks.iter().map(|(k, v)| (*k, v.clone())).collect();
+            format!("ok {} {} {} {} {} {}", g.get_ftype(), g.get_aux(), g.get_eof(), g.access.first().cloned().unwrap_or(0), cs.len(), adler(&cs))
+        }
+        Ok(Err(e)) => format!("err:{}", err_tok(e)),
+        Err(_) => "err:panic".to_string(),
+    }
+}
+
+fn verdict(vd: &mut Verdicts, w: &World, pass: bool, kind: &str, detail: &str) {
+    let hist = w.hist.clone();
+    for f in [Focus::C01, Focus::C02, Focus::C03, Focus::C05] {
+        if pass { vd.v(f, true, "concrete-model", "", &[]); } else { vd.v(f, false, &format!("concrete-model:{}", kind), detail, &hist); }
+    }
+}
+
+/// ask the model; if it has no disk yet (fs.rs did not call `after_format`), let it format its own blank image first
+fn ask(drv: &mut Drv, req: &str) -> String {
+    let ans = drv.ask(&format!("fspd {}", req));
+    if ans != "need-format" { return ans; }
+    let a = drv.ask(&format!("fspd format {} {} nocmp ok", hxs("VERIF"), hx(&pd_time())));
+    if a != "ok" { return format!("format-failed:{}", a); }
+    drv.ask(&format!("fspd {}", req))
+}
+
+/// send one operation to the concrete model; `expect` = the real answer of a query, None = a mutating operation
+/// (the driver compares result class and the whole written-back image with the mirror and answers `ok`)
+fn tie(drv: &mut Drv, w: &World, vd: &mut Verdicts, req: &str, expect: Option<String>, desc: &str) {
+    let ans = ask(drv, req);
+    let want = expect.unwrap_or("ok".to_string());
+    if ans == want { verdict(vd, w, true, "", ""); return; }
+    let kind = if ans.starts_with("bad result") { "result" } else if ans.starts_with("bad block") || ans.starts_with("bad flush") { "image" } else { req.split(' ').next().unwrap_or("?") }.to_string();
+    let short: String = req.chars().take(200).collect();
+    verdict(vd, w, false, &kind, &format!("concrete ProDOS model disagrees after [{}]: request [{}] model answered [{}] expected [{}]", desc, short, ans, want));
+}
+
+/// `FileType::from_str` as a code (`none` = refused)
+fn type_code(s: &str) -> String {
+    if let Ok(n) = s.parse::<u8>() { return if matches!(n, 0x00 | 0x04 | 0x06 | 0x0f | 0xfa..=0xff) { n.to_string() } else { "none".to_string() }; }
+    match s { "bin" => "6", "txt" => "4", "atok" => "252", "itok" => "250", "avar" => "253", "ivar" => "251", "rel" => "254", "sys" => "255", _ => "none" }.to_string()
+}
+
+fn op_request(op: &OpRecord) -> Option<String> {
+    let real = res_tok(&op.result);
+    let p = hxs(&op.spelled);
+    Some(match op.kind {
+        "put" => {
+            let ok = op.result.is_ok();
+            let cs = op.chunks.iter().map(|(i, c)| if ok { format!("{}:{}", i, hx(c)) } else { format!("{}:-", i) }).collect::<Vec<_>>().join(",");
+            format!("put {} {} {} {} {} {} {} {}", p, hx(&op.fs_type), hx(&op.aux), hx(&op.access), op.eof, hx(&pd_time()), real, if cs.is_empty() { "-".to_string() } else { cs })
+        }
+        "delete" => format!("delete {} {}", p, real),
+        "lock" => format!("lock {} {}", p, real),
+        "unlock" => format!("unlock {} {}", p, real),
+        "rename" => format!("rename {} {} {}", p, hxs(&op.arg2), real),
+        "retype" => format!("retype {} {} {} {}", p, type_code(&op.arg2), op.arg3.parse::<u16>().map(|v| v.to_string()).unwrap_or("none".to_string()), real),
+        "mkdir" => format!("mkdir {} {} {}", p, hx(&pd_time()), real),
+        _ => return None,
+    })
+}
+
+/// optional hook for fs.rs: right after `make_volume` and the first mirror of the image
+pub fn after_format(drv: &mut Drv, w: &mut World, vd: &mut Verdicts) {
+    if !enabled(w, vd) { return; }
+    let ans = drv.ask(&format!("fspd format {} {} cmp ok", hxs("VERIF"), hx(&pd_time())));
+    if ans == "ok" { verdict(vd, w, true, "", ""); }
+    else {
+        let kind = if ans.starts_with("bad result") { "result" } else { "image" };
+        verdict(vd, w, false, kind, &format!("concrete ProDOS model disagrees after [format]: model answered [{}]", ans));
+    }
+}
+
+pub fn after_step(drv: &mut Drv, w: &mut World, vd: &mut Verdicts, desc: &str) {
+    if !enabled(w, vd) { return; }
+    { static ONCE: std::sync::Once = std::sync::Once::new(); let mut run = false; ONCE.call_once(|| run = true); if run { directed(w, vd); } }
+    match w.last_op.clone() {
+        Some(op) => match op_request(&op) {
+            Some(req) => tie(drv, w, vd, &req, None, desc),
+            None => { let _ = ask(drv, "sync"); }
+        },
+        None => {
+            // a query or a skipped step: the image must not have changed; the model keeps its disk
+            if desc.starts_with("get-missing ") {
+                let name = desc.splitn(2, ' ').nth(1).unwrap_or("").split(" => ").next().unwrap_or("").to_string();
+                let res = w.get(&name);
+                tie(drv, w, vd, &format!("get {}", hxs(&name)), Some(get_answer(&res)), desc);
+            }
+        }
+    }
+    // free count, catalogs and `get` are functions of the image, which the operation tie has just compared: they are asked
+    // for (in one round trip) only after a step that changed it: free count, catalog of the root and of every directory,
+    // and (after a successful put) the file as `get` returns it
+    if !desc.ends_with("=> ok") { return; }
+    let mut items: Vec<String> = Vec::new();
+    let mut wants: Vec<String> = Vec::new();
+    if let Ok(f) = w.free() { items.push("free".to_string()); wants.push(format!("ok {}", f)); }
+    let mut dirs: Vec<String> = vec!["/".to_string()];
+    dirs.extend(w.dirs.iter().cloned());
+    for d in dirs {
+        match guarded(|| w.disk.catalog_to_vec(&d).map_err(|e| e.to_string())) {
+            Ok(Ok(rows)) => {
+                // `universal_row`: "{:4} {:5}  {}" = type, blocks, name
+                let rs: Vec<String> = rows.iter().map(|r| {
+                    let typ = r.get(..4).unwrap_or("").trim().to_string();
+                    let rest = r.get(5..).unwrap_or("").trim_start();
+                    match rest.split_once("  ") { Some((n, name)) => format!("{}:{}:{}", hxs(name), n, typ), None => format!("?{}", r.replace(' ', "_")) }
+                }).collect();
+                items.push(format!("cat={}", hxs(&d)));
+                wants.push(format!("ok {}", if rs.is_empty() { "-".to_string() } else { rs.join(",") }));
+            }
+            Ok(Err(e)) => { items.push(format!("cat={}", hxs(&d))); wants.push(format!("err:{}", err_tok(&e))); }
+            Err(_) => {}
+        }
+    }
+    if desc.starts_with("put ") && desc.ends_with("=> ok") {
+        let name = desc.splitn(2, ' ').nth(1).unwrap_or("").split(" chunks=").next().unwrap_or("").to_string();
+        let res = w.get(&name);
+        items.push(format!("get={}", hxs(&name)));
+        wants.push(get_answer(&res));
+    }
+    if items.is_empty() { return; }
+    let ans = ask(drv, &format!("q {}", items.join(" ")));
+    let got: Vec<&str> = ans.split(" ;; ").collect();
+    for (i, want) in wants.iter().enumerate() {
+        let g = got.get(i).cloned().unwrap_or("<none>");
+        if g == want { verdict(vd, w, true, "", ""); }
+        else {
+            let kind = items[i].split('=').next().unwrap_or("?").to_string();
+            verdict(vd, w, false, &kind, &format!("concrete ProDOS model disagrees after [{}]: query [{}] model answered [{}] expected [{}]", desc, items[i], g, want));
+        }
+    }
+}
+
+// ------------------------------------------------------------------------------------------
+// directed scenarios on the real code (operations the generator of fs.rs does not produce): once per run
+
+/// the two scenarios fail on the tree as it is (findings `prodos-delete-grown-directory`, `prodos-oversize-put-refused`,
+/// repairs in proposed_fixes/prodos-delete-grown-directory.diff, prodos-put-size-limits.diff).  Until the repairs are
+/// applied a failure is only counted (`pending-fix:<oracle>` in the distribution); set this to `true` (or run with
+/// `A2V_PD_DIRECTED=1`) once they are, so that a regression is reported as a failing input.
+const DIRECTED_STRICT: bool = false;
+
+fn report(vd: &mut Verdicts, w: &World, owners: &[Focus], pass: bool, oracle: &str, detail: &str) {
+    let strict = std::env::var("A2V_PD_DIRECTED").map(|v| v != "0").unwrap_or(DIRECTED_STRICT);
+    if !pass && !strict { vd.out.count(&format!("pending-fix:{}", oracle)); return; }
+    let _ = w;
+    for f in owners { vd.v(*f, pass, oracle, detail, &[format!("directed scenario {}", oracle)]); }
+}
+
+fn directed(w: &World, vd: &mut Verdicts) {
+    use a2kit::fs::{prodos, DiskFS};
+    use a2kit::img;
+    let mk = || -> Result<prodos::Disk, String> {
+        let img = Box::new(img::dsk_po::PO::create(280));
+        let mut d = prodos::Disk::from_img(img).map_err(|e| e.to_string())?;
+        d.format("VERIF", true, None).map_err(|e| e.to_string())?;
+        Ok(d)
+    };
+    let file = |d: &mut prodos::Disk, path: &str, chunks: Vec<(usize, Vec<u8>)>, eof: usize| -> Result<usize, String> {
+        let mut f = d.new_fimg(None, true, path).map_err(|e| e.to_string())?;
+        for (i, c) in chunks { f.chunks.insert(i, c); }
+        f.set_eof(eof); f.access = vec![0xC3]; f.fs_type = vec![6];
+        d.put(&f).map_err(|e| e.to_string())
+    };
+    // A: an emptied directory that has grown to a second block is deleted
+    let a = guarded(|| -> Result<Option<String>, String> {
+        let mut d = mk()?;
+        d.create("D").map_err(|e| e.to_string())?;
+        for i in 0..13 { file(&mut d, &format!("D/F{}", i), vec![(0, vec![i as u8 + 1; 10])], 10)?; }
+        let keep = vec![0xAAu8; 512];
+        file(&mut d, "KEEP", vec![(0, keep.clone())], 512)?;
+        for i in 0..13 { d.delete(&format!("D/F{}", i)).map_err(|e| e.to_string())?; }
+        let free0 = d.stat().map_err(|e| e.to_string())?.free_blocks;
+        let bytes0 = d.get_img().to_bytes();
+        let r = d.delete("D").map_err(|e| e.to_string());
+        let free1 = d.stat().map_err(|e| e.to_string())?.free_blocks;
+        let rows = d.catalog_to_vec("/").map_err(|e| e.to_string())?;
+        let listed = rows.iter().any(|r| r.ends_with("  D"));
+        match &r {
+            Ok(()) => { if listed || free1 != free0 + 2 { return Ok(Some(format!("delete D succeeded but listed={} free {}->{}", listed, free0, free1))); } }
+            Err(e) => { if d.get_img().to_bytes() != bytes0 { return Ok(Some(format!("delete D refused ({}) but the volume changed: free {}->{}, D still listed={}", e, free0, free1, listed))); } }
+        }
+        // the blocks the directory had are handed out again: everything must still be listable and readable
+        file(&mut d, "NEW", vec![(0, vec![0x55; 512]), (1, vec![0x66; 512])], 1024)?;
+        if let Err(e) = d.tree(false, None) { return Ok(Some(format!("after delete D => {:?} and put NEW the volume cannot be listed: {}", r, e))); }
+        match d.get("KEEP") { Ok(g) => if g.chunks.get(&0) != Some(&keep) { return Ok(Some("KEEP changed".to_string())); }, Err(e) => return Ok(Some(format!("KEEP unreadable: {}", e))) }
+        Ok(None)
+    });
+    match a {
+        Ok(Ok(None)) => report(vd, w, &[Focus::C02, Focus::C03, Focus::C05], true, "prodos-delete-grown-directory", ""),
+        Ok(Ok(Some(why))) => report(vd, w, &[Focus::C02, Focus::C03, Focus::C05], false, "prodos-delete-grown-directory", &format!("mkdir D; 13 files into D (second directory block); delete them; delete D: {}", why)),
+        Ok(Err(e)) => vd.out.count(&format!("directed-setup-error:{}", e)),
+        Err(p) => report(vd, w, &[Focus::C03], false, "prodos-delete-grown-directory", &format!("panic {}", p)),
+    }
+    // B: a file image with a chunk index beyond the 128 x 256 blocks a ProDOS file can have
+    let b = guarded(|| -> Result<Option<String>, String> {
+        let mut d = mk()?;
+        file(&mut d, "KEEP", vec![(0, vec![0xAA; 512])], 512)?;
+        let bytes0 = d.get_img().to_bytes();
+        let r = file(&mut d, "BIG", vec![(0, vec![1; 512]), (32768, vec![2; 512])], 512);
+        match r {
+            Ok(_) => Ok(Some("put of chunks {0, 32768} was accepted (index block 128 does not exist in the format; the end of file does not fit 24 bits)".to_string())),
+            Err(e) => if d.get_img().to_bytes() != bytes0 { Ok(Some(format!("refused ({}) but the volume changed", e))) } else { Ok(None) },
+        }
+    });
+    match b {
+        Ok(Ok(None)) => report(vd, w, &[Focus::C01, Focus::C03], true, "prodos-oversize-put-refused", ""),
+        Ok(Ok(Some(why))) => report(vd, w, &[Focus::C01, Focus::C03], false, "prodos-oversize-put-refused", &why),
+        Ok(Err(e)) => vd.out.count(&format!("directed-setup-error:{}", e)),
+        Err(p) => report(vd, w, &[Focus::C01, Focus::C03], false, "prodos-oversize-put-refused", &format!("panic {}", p)),
+    }
+}
